@@ -584,6 +584,7 @@ func runC17(ctx *core.Ctx, idx int) *core.Result {
 	}
 	if idx%64 == 1 {
 		c17AddedImportProbe(res)
+		c17GeneratedExtentProbe(res)
 	}
 	paths := [][]engineRun{applyAPI(pt, srcs)}
 	pnames := []string{"api"}
@@ -689,6 +690,38 @@ func c17LineDirectiveProbe(ctx *core.Ctx, res *core.Result) {
 // import to a file that has none and whose first declaration is documented. astutil.AddNamedImport gives the new import
 // declaration the position of the package clause's line, and go/printer then prints the doc comment of the first
 // declaration as a trailing comment of the new import.
+// c17GeneratedExtentProbe: a later change replaces, by a declaration of another kind, a declaration that an earlier change
+// of the same patch generated with a long literal. The comments of the untouched declaration that follows must stay
+// (known finding: the generated declaration claims to end behind its text). The same two changes with a short literal,
+// and each change alone, are checked as well and must be right.
+func c17GeneratedExtentProbe(res *core.Result) {
+	src := "package a\n\nvar Greeting = \"hi\"\n\n// Untouched is not mentioned by the patch.\nfunc Untouched() {\n\t// inside Untouched\n\tprintln(\"b\")\n} // trailing Untouched\n\nfunc C() {}\n"
+	mk := func(lit string) (string, string) {
+		c1 := "@@\n@@\n-var Greeting = \"hi\"\n+var Greeting = \"" + lit + "\"\n"
+		c2 := "@@\nvar x expression\n@@\n-var Greeting = x\n+const Greeting = x\n"
+		return c1, c2
+	}
+	long := "hello, world, and everybody else who happens to be reading this message today"
+	for _, lit := range []string{long, "yo"} {
+		c1, c2 := mk(lit)
+		for vi, pt := range []string{c1 + "\n" + c2, c1, c2} {
+			runs := applyAPI(pt, []string{src})
+			res.Evals++
+			if runs[0].Pan != "" || runs[0].Err != "" {
+				res.Violate("C17/generated-extent-probe-failed", runs[0].Pan+runs[0].Err, replayFiles(pt, src, ""))
+				return
+			}
+			if class, detail, _, _ := judgeComments(src, runs[0].Out); class != "" {
+				cls := "C17/" + class + "/probe-single-change-or-short-literal"
+				if vi == 0 && lit == long {
+					cls = "C17/comment-of-untouched-declaration-lost/behind-a-replaced-generated-declaration"
+				}
+				res.Violate(cls, "["+class+"] "+detail, replayFiles(pt, src, runs[0].Out))
+			}
+		}
+	}
+}
+
 func c17AddedImportProbe(res *core.Result) {
 	src := "package a // import \"x/a\"\n\n// T doc.\ntype T struct{}\n\nfunc f() { legacy(1) }\n"
 	pt := "@@\nvar x expression\n@@\n+import \"example.com/bar\"\n\n-legacy(x)\n+bar.New(x)\n"
